@@ -164,13 +164,13 @@ mut("C05", "empty-command", "tokens, 0)", "first-word lookup on an empty word li
         }
 ''', ""))
 mut("C05", "new-unwrap", "unwrap", "a new unwrap on user-controlled text",
-    (S, '''        let end = match caps[2].to_string().parse::<i32>() {
-            Ok(x) => x,
-            Err(e) => {
-                println_stderr!("cicada: {}", e);
-                return;
-            }
-        };''', '''        let end = caps[2].to_string().parse::<i32>().unwrap();'''))
+    (S, '''            let end = match caps[2].to_string().parse::<i32>() {
+                Ok(x) => x,
+                Err(e) => {
+                    println_stderr!("cicada: {}", e);
+                    return;
+                }
+            };''', '''            let end = caps[2].to_string().parse::<i32>().unwrap();'''))
 
 # ------------------------------------------------------------------ C07
 mut("C07", "no-give-back", "R07-1|execute::run_proc", "terminal stays with the finished job",
@@ -616,37 +616,37 @@ mut("C12", "range-excludes-end", "R12-6|shell::expand_brace_range|ascending|incl
 mut("C12", "range-desc-excludes-end", "R12-6|shell::expand_brace_range|descending|inclusive", "{3..1} stops before 1",
     (S, "            while n >= end {", "            while n > end {"))
 mut("C12", "range-push-after-step", "R12-6|shell::expand_brace_range|ascending|push", "the start value is skipped",
-    (S, """                result.push(format!("{}", n));
-                n = match n.checked_add(incr) {
-                    Some(x) => x,
-                    None => break,
-                };
-""", """                n = match n.checked_add(incr) {
-                    Some(x) => x,
-                    None => break,
-                };
-                result.push(format!("{}", n));
+    (S, """                    seq.push(format!("{}", n));
+                    n = match n.checked_add(incr) {
+                        Some(x) => x,
+                        None => break,
+                    };
+""", """                    n = match n.checked_add(incr) {
+                        Some(x) => x,
+                        None => break,
+                    };
+                    seq.push(format!("{}", n));
 """))
 mut("C12", "range-direction-flipped", "R12-6|shell::expand_brace_range|descending|selected", "descending loop chosen when start < end",
-    (S, "        if start > end {\n            while n >= end {", "        if start < end {\n            while n >= end {"))
+    (S, "            if start > end {\n                while n >= end {", "            if start < end {\n                while n >= end {"))
 ref("range-loop-to-loop-break", ["C12", "C05"], "while n <= end rewritten as loop { if n > end { break } .. }",
-    (S, """            while n <= end {
-                result.push(format!("{}", n));
-                n = match n.checked_add(incr) {
-                    Some(x) => x,
-                    None => break,
-                };
-            }
-""", """            loop {
-                if n > end {
-                    break;
+    (S, """                while n <= end {
+                    seq.push(format!("{}", n));
+                    n = match n.checked_add(incr) {
+                        Some(x) => x,
+                        None => break,
+                    };
                 }
-                result.push(format!("{}", n));
-                n = match n.checked_add(incr) {
-                    Some(x) => x,
-                    None => break,
-                };
-            }
+""", """                loop {
+                    if n > end {
+                        break;
+                    }
+                    seq.push(format!("{}", n));
+                    n = match n.checked_add(incr) {
+                        Some(x) => x,
+                        None => break,
+                    };
+                }
 """))
 mut("C10", "rewrite-loop-without-fixpoint-test", "R10-5|shell::expand_env|fixpoint",
     "the loop re-applying expand_one_env loses its `nothing changed` exit: `echo ${HOME` hangs again",
@@ -1439,6 +1439,12 @@ mut("C17", "alias-plain-word-shortcut", "R17-7|shell::expand_alias|retokenized",
         let linfo = parsers::parser_line::parse_line(text);
         let tokens_ = linfo.tokens;
         tokens.remove(*i);"""))
+
+mut("C12", "range-drops-literal-pieces", "R12-10|shell::expand_brace_range|context-kept",
+    "the text before / between the ranges is lost again",
+    (S, """                    result_new.push(format!("{}{}{}", head, literal, item));""",
+     """                    let _ = literal;
+                    result_new.push(format!("{}{}", head, item));"""))
 
 # ------------------------------------------------------------------ more refactors
 ref("history-params-vec", ["C18"], "bind the INSERT parameters through a params! style slice",
